@@ -217,8 +217,8 @@ func c04Overlap(c *C) {
 	depth := r.Pick2([]int{3, 40, 300, 600, 900})
 	var sb strings.Builder
 	sb.WriteString("{% for i in lst %}{% cycle \"a\" \"b\" %}{% ifchanged i %}c{% endifchanged %}{% endfor %}")
-	kind := r.Intn(3)
-	for i := 0; i < depth; i++ {
+	kind := r.Intn(4)
+	for i := 0; i < depth && kind < 3; i++ {
 		switch kind {
 		case 0:
 			fmt.Fprintf(&sb, "{%% block n%d %%}", i)
@@ -228,8 +228,13 @@ func c04Overlap(c *C) {
 			sb.WriteString("{% with w=n %}")
 		}
 	}
-	sb.WriteString("[{{ park() }}{{ s }}{% cycle 1 2 3 %}]")
-	for i := 0; i < depth; i++ {
+	if kind == 3 {
+		// a macro recursion that terminates at this depth: the bound on macro recursion is a bound per execution
+		fmt.Fprintf(&sb, "{%% macro rec(k) %%}{%% if k > 0 %%}({{ rec(k - 1) }}){%% else %%}[{{ park() }}{{ s }}]{%% endif %%}{%% endmacro %%}{{ rec(%d) }}", depth)
+	} else {
+		sb.WriteString("[{{ park() }}{{ s }}{% cycle 1 2 3 %}]")
+	}
+	for i := 0; i < depth && kind < 3; i++ {
 		sb.WriteString([]string{"{% endblock %}", "{% endif %}", "{% endwith %}"}[kind])
 	}
 	sb.WriteString("{% for i in lst %}{% cycle \"x\" \"y\" %}{% endfor %}tail")
@@ -273,7 +278,7 @@ func c04Overlap(c *C) {
 	ra := <-resA
 	c.Eval(4)
 	if errB != nil || outB != wantB || ra.err != nil || ra.out != wantA {
-		c.Fail("history-dependent", D{"nesting_depth": depth, "nesting_kind": []string{"block", "if", "with"}[kind], "why": "two overlapping executions of one compiled template (the first parked at its innermost point while the second ran)",
+		c.Fail("history-dependent", D{"nesting_depth": depth, "nesting_kind": []string{"block", "if", "with", "terminating macro recursion"}[kind], "why": "two overlapping executions of one compiled template (the first parked at its innermost point while the second ran)",
 			"second_execution": D{"out": q(truncStr(outB, 300)), "err": errStr(errB), "alone": q(truncStr(wantB, 300))}, "first_execution": D{"out": q(truncStr(ra.out, 300)), "err": errStr(ra.err), "alone": q(truncStr(wantA, 300))}})
 		return
 	}
